@@ -114,3 +114,23 @@ def _is_canonical_decimal(interp, s):
         from .values import DEC_RE
         return SBool(tm.T('str.in_re', (s.t, tm.T('re', (), 'RegLan', DEC_RE)), tm.BOOL))
     return False
+
+
+# ---------------------------------------------------------------------------------------
+def in_re(s, pattern):
+    """Full match of `pattern` (a small regex subset: literals, classes, * + ? | groups)."""
+    import re
+    return isinstance(s, str) and re.fullmatch(pattern, s) is not None
+
+
+@_sym(in_re)
+def _in_re(interp, s, pattern):
+    from .values import SStr, SDec, SErr
+    from .models import str_term, is_str
+    from .regex2smt import regex_to_smt
+    if isinstance(s, str) and not isinstance(s, (SStr,)):
+        return in_re(s, pattern)
+    if not is_str(s):
+        return False
+    t = tm.T('str.in_re', (str_term(interp, s), tm.T('re', (), 'RegLan', regex_to_smt(pattern))), tm.BOOL)
+    return SBool(t)
